@@ -553,7 +553,7 @@ Lemma data_tail_small d pre rest s la E F R0 :
   Forall (fun c => hspace c = true) pre ->
   pth s = mkPath E R0 (len R0) F false true -> small R0 ->
   exists s' c, data_loop fd (pre ++ hws (d_trail d) ++ tail_comment d ++ 10 :: rest) s 0 la = (c, rest, s') /\
-    pelems (pth s') = E /\ pbuf (pth s') = true /\ valid s' = valid s /\ pcurr s' = pcurr s.
+    pelems (pth s') = E /\ bufok (pth s') /\ valid s' = valid s /\ pcurr s' = pcurr s.
 Proof.
   intros FP HP SM. rewrite tail_split. destruct (d_tcomment d) as [t|].
   - rewrite app_assoc.
@@ -566,14 +566,14 @@ Proof.
     destruct (data_end_comment t rest s1 la1 SP) as (s2 & E2 & (T1 & T2 & T3)).
     exists s2, 35. rewrite E1, E2. split; [reflexivity|].
     autorewrite with pst in T1, T2, T3. rewrite T1, T2, T3, P1, addchar_small by (assumption || lia).
-    cbn [pelems pbuf]. auto.
+    cbn [pelems pbuf pbin]. auto.
   - rewrite app_assoc.
     assert (FA : Forall (fun c => hspace c = true) (pre ++ hws (d_trail d))).
     { apply Forall_app. split; [assumption|apply hws_hspaces]. }
     destruct (data_lead_blanks _ s (10 :: rest) la E F R0 FA HP SM)
       as (s1 & la1 & R1 & E1 & P1 & S1 & V1 & C1 & _).
     exists (addch (tick s1 10) 10), 10. rewrite E1, data_end_nl. split; [reflexivity|].
-    autorewrite with pst. rewrite P1, addchar_small by (assumption || lia). cbn [pelems pbuf]. auto.
+    autorewrite with pst. rewrite P1, addchar_small by (assumption || lia). cbn [pelems pbuf pbin]. auto.
 Qed.
 
 (* the bytes handed to the handler *)
@@ -626,7 +626,7 @@ Lemma parse_data_value d v rest s E F :
   wf_value v = true -> pth s = mkPath E [] 0 F false true -> valid s = 0 ->
   exists s', parse_data fd (hws (d_mid2 d) ++ print_value d v ++ hws (d_trail d) ++ tail_comment d ++ 10 :: rest) s
              = (len v, rest, s') /\
-    pelems (pth s') = E /\ pbuf (pth s') = true /\ pcurr s' = pcurr s /\ valid s' = len v /\
+    pelems (pth s') = E /\ bufok (pth s') /\ pcurr s' = pcurr s /\ valid s' = len v /\
     (v <> [] -> post_read s' (len v) = Some v).
 Proof.
   intros WF HP HV. unfold wf_value in WF. apply andb_true_iff in WF. destruct WF as [WF WL].
@@ -641,7 +641,7 @@ Proof.
   - (* empty value *)
     destruct (d_quote d =? 0).
     + cbn [app]. destruct (data_tail_small d (hws (d_mid2 d)) rest s (-1) E F [] (hws_hspaces _) HP SM0)
-        as (s' & c & E1 & P1 & B1 & V1 & C1).
+        as (s' & c & E1 & P1 & [B1 BN1] & V1 & C1).
       rewrite E1. exists s'. rewrite V1, HV. repeat split; auto; try (intros X; now destruct X).
     + destruct (data_lead_blanks _ s ([q; q] ++ hws (d_trail d) ++ tail_comment d ++ 10 :: rest) (-1) E F []
                   (hws_hspaces (d_mid2 d)) HP SM0) as (s1 & la1 & R1 & E1 & P1 & S1 & V1 & C1 & _).
@@ -650,7 +650,7 @@ Proof.
         as (s2 & E2 & Q2 & C2); [congruence|]. rewrite E2.
       destruct (data_close_quote q (hws (d_trail d) ++ tail_comment d ++ 10 :: rest) s2 q E F [] Q) as (s3 & E3 & C3 & V3 & P3);
         [destruct Q; lia|exact Q2|cbn; unfold VALID_MOD; lia|]. rewrite E3.
-      destruct (data_tail_small d [] rest s3 q E F [] (Forall_nil _) P3 SM0) as (s' & c & E4 & P4 & B4 & V4 & C4).
+      destruct (data_tail_small d [] rest s3 q E F [] (Forall_nil _) P3 SM0) as (s' & c & E4 & P4 & [B4 BN4] & V4 & C4).
       cbn [app] in E4. rewrite E4. exists s'. rewrite V4, V3. repeat split; auto; try congruence; try (intros X; now destruct X).
   - set (v := y :: v0) in *.
     destruct (plain_ok v && ((d_quote d =? 0) || negb (quotable v))) eqn:PL.
@@ -676,7 +676,7 @@ Proof.
         - unfold len. now rewrite rev_length.
         - intros X. apply (f_equal (@length Z)) in X. rewrite rev_length in X. discriminate.
         - rewrite hd_rev_last. exact SPL. }
-      rewrite V4, V3, VL, P4. cbn [pelems pbuf]. repeat split; auto; try congruence.
+      rewrite V4, V3, VL, P4. cbn [pelems pbuf pbin]. repeat split; auto; try congruence.
       intros _. rewrite RV in P4. eapply post_read_value. exact P4.
     + (* quoted *)
       assert (QT : quotable v = true).
@@ -699,7 +699,7 @@ Proof.
       subst v.
       destruct (data_tail_keep d rest s4 q E F (rev (y :: v0))) as (s' & c & J & E5 & P5 & V5 & C5).
       { replace (len (rev (y :: v0))) with (len (y :: v0)) by (unfold len; now rewrite rev_length). exact P4. }
-      rewrite E5. exists s'. rewrite V5, V4, P5. cbn [pelems pbuf]. repeat split; auto; try congruence.
+      rewrite E5. exists s'. rewrite V5, V4, P5. cbn [pelems pbuf pbin]. repeat split; auto; try congruence.
       intros _. eapply post_read_value. exact P5.
 Qed.
 
